@@ -46,6 +46,7 @@ type Options struct {
 	Verbose      bool
 	OnlyHarness  string
 	known        []KnownFinding
+	WitnessPerHarness int
 }
 
 type Sample struct {
@@ -79,6 +80,7 @@ type HarnessResult struct {
 	Truncated  bool
 	LockOrders map[string]bool
 	Assumes    int
+	Witnesses  []*Violation
 }
 
 func newHarnessResult(spec *HarnessSpec) *HarnessResult {
@@ -300,6 +302,19 @@ func (in *Interp) runPath(entry *ssa.Function, prefix []int, R *HarnessResult) {
 		}()
 		in.callFunction(entry, nil, nil)
 	}()
+	if outcome == "ok" && in.spec.NoNative == "" && len(in.violations) == 0 {
+		R.mu.Lock()
+		need := len(R.Witnesses) < in.opts.WitnessPerHarness
+		R.mu.Unlock()
+		if need {
+			if r, m := in.sess.CheckModel("", in.varNames(), "feas"); r == Sat {
+				w := &Violation{Harness: in.spec.Name, Label: "(witness)", Decisions: append([]int{}, in.decisions...), Model: m, Vars: append([]varDecl{}, in.vars...)}
+				R.mu.Lock()
+				R.Witnesses = append(R.Witnesses, w)
+				R.mu.Unlock()
+			}
+		}
+	}
 	R.mu.Lock()
 	defer R.mu.Unlock()
 	R.Paths++
